@@ -83,6 +83,29 @@ def gen_direct(chk):
     for (o1, c1), (o2, c2) in itertools.product(singles, repeat=2):
         ctx = {**c1, **c2}
         cases.append({"fam": "pair", "decision": "permit", "obligations": [o1, o2], "ctx": ctx})
+    # the same parametrised type listed twice (or three times) with different attrs: EVERY obligation is judged
+    same_type = [
+        ([{"type": "require_level", "attrs": {"min": 1}}, {"type": "require_level", "attrs": {"min": 3}}], {"auth_level": 2}),
+        ([{"type": "require_level", "attrs": {"min": 3}}, {"type": "require_level", "attrs": {"min": 1}}], {"auth_level": 2}),
+        ([{"type": "require_consent", "attrs": {"key": "tos"}}, {"type": "require_consent", "attrs": {"key": "marketing"}}],
+         {"consent": {"tos": True}}),
+        ([{"type": "require_consent"}, {"type": "require_consent", "attrs": {"key": "marketing"}}], {"consent": {"tos": True}}),
+        ([{"type": "require_reauth", "attrs": {"max_age": 3600}}, {"type": "require_reauth", "attrs": {"max_age": 60}}],
+         {"reauth_age_seconds": 900}),
+        ([{"type": "require_reauth", "attrs": {"max_age": 60}}, {"type": "require_reauth", "attrs": {"max_age": 3600}}],
+         {"reauth_age_seconds": 900}),
+        ([{"type": "require_mfa"}, {"type": "require_mfa", "attrs": {"x": 1}}, {"type": "require_mfa"}], {}),
+        ([{"type": "require_mfa", "on": "deny"}, {"type": "require_mfa"}], {}),
+        ([{"type": "require_mfa"}, {"type": "require_mfa", "on": "deny"}], {"mfa": True}),
+        ([{"type": "require_level", "attrs": {"min": 1}}, {"type": "require_mfa"}, {"type": "require_level", "attrs": {"min": 3}}],
+         {"auth_level": 2, "mfa": True}),
+        ([{"type": "http_challenge", "on": "deny", "attrs": {"scheme": "Basic"}}, {"type": "http_challenge", "attrs": {"scheme": "Bearer"}}], {}),
+    ]
+    for obs, ctx in same_type:
+        cases.append({"fam": "same_type", "decision": "permit", "obligations": obs, "ctx": ctx})
+        cases.append({"fam": "same_type", "decision": "permit", "obligations": obs, "ctx": {}})
+        cases.append({"fam": "same_type", "decision": "permit", "obligations": obs,
+                      "ctx": {"auth_level": 5, "mfa": True, "consent": {"tos": True, "marketing": True}, "reauth_age_seconds": 1}})
     for (o1, c1), (o2, c2), (o3, c3) in itertools.product(singles[:8], singles[4:10], singles[8:]):
         cases.append({"fam": "triple", "decision": "permit", "obligations": [o1, o2, o3], "ctx": {**c1, **c2, **c3}})
     # odd obligation items and contexts
